@@ -188,6 +188,66 @@ theorem nextToken_int (il : Char → Bool) (i : Int) (k : List Sym) (hk : stopOK
       rw [lexNum_digits il _ cs [c, '-'] k (fun d hd => hds d (by simp [hd])) hk]
       simp [intTok]
 
+/-! ### floats of the shape digits `.` digits (the lexing half of the `FloatIO` parameter is provable for them) -/
+
+theorem lexNum_frac_digits (il : Char → Bool) (ds acc : Str) (k : List Sym)
+    (hd : ∀ c ∈ ds, isDigit c = true) (hk : stopOK k = true) :
+    lexNum il .fracPart acc (syms ds ++ k) = floatTok (ds.reverse ++ acc) k := by
+  induction ds generalizing acc with
+  | nil =>
+    simp only [syms_nil, List.nil_append, List.reverse_nil]
+    rcases stopOK_cases hk with rfl | ⟨c, tl, rfl, hc⟩
+    · simp [lexNum]
+    · obtain ⟨hr, h0, hdg, _, _, he, hE, hx, hX, hdot, _⟩ := stop_char hc
+      rw [lexNum, hr]; simp [h0, hdg, he, hE, hx, hX, hdot]
+  | cons c cs ih =>
+    have hc := hd c (by simp)
+    obtain ⟨hr, h0, _⟩ := digit_facts c hc
+    simp only [syms_cons, List.cons_append]
+    rw [lexNum, hr]; simp only [h0, if_false, hc, if_true]
+    rw [ih _ (fun d hd' => hd d (by simp [hd']))]
+    simp
+
+theorem lexNum_int_dot_frac (il : Char → Bool) (fz : Bool) (ds1 : Str) (d : Char) (ds2 acc : Str) (k : List Sym)
+    (h1 : ∀ c ∈ ds1, isDigit c = true) (hd : isDigit d = true) (h2 : ∀ c ∈ ds2, isDigit c = true)
+    (hk : stopOK k = true) :
+    lexNum il (.intPart fz) acc (syms (ds1 ++ '.' :: d :: ds2) ++ k) =
+      floatTok (ds2.reverse ++ d :: '.' :: (ds1.reverse ++ acc)) k := by
+  induction ds1 generalizing acc with
+  | nil =>
+    simp only [List.nil_append, syms_cons, List.cons_append, List.reverse_nil]
+    have hdot : (Sym.chr '.').rune = some '.' := by decide
+    rw [lexNum, hdot]; simp only
+    have e0 : ('.' = '\x00') = False := by decide
+    have e1 : isDigit '.' = false := by decide
+    have e2 : ('.' = 'e' ∨ '.' = 'E') = False := by decide
+    have e3 : ('.' = 'x' ∨ '.' = 'X') = False := by decide
+    simp only [e0, e1, e2, e3, if_false, if_true, Bool.false_eq_true]
+    obtain ⟨hr, _⟩ := digit_facts d hd
+    simp only [lexNum, hr, hd, if_true]
+    rw [lexNum_frac_digits il ds2 _ k h2 hk]
+  | cons c cs ih =>
+    have hc := h1 c (by simp)
+    obtain ⟨hr, h0, _⟩ := digit_facts c hc
+    simp only [List.cons_append, syms_cons]
+    rw [lexNum, hr]; simp only [h0, if_false, hc, if_true]
+    rw [ih (c :: acc) (fun x hx => h1 x (by simp [hx]))]
+    simp
+
+/-- `D+ . D+` is read back as one float token -/
+theorem nextToken_simple_float (il : Char → Bool) (c : Char) (ds1 : Str) (d : Char) (ds2 : Str) (k : List Sym)
+    (hc : isDigit c = true) (h1 : ∀ x ∈ ds1, isDigit x = true) (hd : isDigit d = true)
+    (h2 : ∀ x ∈ ds2, isDigit x = true) (hk : stopOK k = true) :
+    nextToken il (syms (c :: ds1 ++ '.' :: d :: ds2) ++ k) = .tok ⟨.float, c :: ds1 ++ '.' :: d :: ds2⟩ k false := by
+  obtain ⟨q1, q2, q3, q4, q5, q6, q7, q8, q9, _⟩ := digit_facts c hc
+  unfold nextToken
+  simp only [List.cons_append, syms_cons]
+  rw [nextTok, q1]; simp only [Bool.false_eq_true, if_false, q2, q3, q4]
+  unfold startTok
+  simp only [q5, q6, if_false, q7, q8, q9, hc, if_true]
+  rw [lexNum_int_dot_frac il (decide (c = '0')) ds1 d ds2 [c] k h1 hd h2 hk]
+  simp [floatTok]
+
 /-! ### punctuation and blanks -/
 
 theorem nextToken_blank (il : Char → Bool) (r : List Sym) : nextToken il (.chr ' ' :: r) = nextToken il r := by
